@@ -9,11 +9,11 @@ from ..core import SKIP
 
 ID = "C11"
 PARALLEL = 16
-RULE = ("exhaustive: every dataset of n <= 10 (quick: n <= 6) sorted entries x all 2^(n-1) ways of cutting it into consecutive "
+RULE = ("exhaustive: every dataset of n <= 10 (quick: n <= 7) sorted entries x all 2^(n-1) ways of cutting it into consecutive "
         "non-empty chunks: group-by on every key pattern (which neighbours share a key) for the encoded-ragged key column "
-        "(first=last shortcut; n <= 10 / 6) and for string and integer key columns (n <= 8 / 5); mean / bincount / histogram "
+        "(first=last shortcut; n <= 10 / 7) and for string and integer key columns (n <= 8 / 6); mean / bincount / histogram "
         "(explicit edges and bins+range) / k-mer counts (k=2,3) / chunk_entries / chunk_lines (n_entries 1..n+1) on fixed "
-        "datasets; computation graphs (shared streams, unused nodes, stream roots) on all chunkings of n <= 6 / 4; then seeded "
+        "datasets; computation graphs (shared streams, unused nodes, stream roots) on all chunkings of n <= 6 / 5; then seeded "
         "random larger datasets (n <= 40) with sampled cut sets, random graphs, multi-root / reduction graphs and stream=True "
         "genome pipelines (pileup histogram / sum / mask / values under intervals / merged; 1-4 chromosomes, some empty). "
         "Non-trivial = at least 2 chunks and (a cut inside a group, or a single-entry chunk, or a short last chunk)")
@@ -132,9 +132,9 @@ def _mk_graph(chunks_a, chunks_b, comps, root):
 
 def cases(tier, rng):
     big = tier in ("thorough", "widen")
-    N = 10 if big else 6
-    NS = 8 if big else 5          # string / int key columns
-    NG = 6 if big else 4
+    N = 10 if big else 7
+    NS = 8 if big else 6          # string / int key columns
+    NG = 6 if big else 5
     # 0. NumPy's data-dependent default bins (domain note of the design): run every check
     for data in ([1, 3, 0, 2, 4], [0, 0, 7, 1]):
         for mask in range(2 ** (len(data) - 1)):
